@@ -25,9 +25,21 @@ func init() {
 	commands["wgwitness"] = cmdWGWitness
 }
 
+// wgSafe runs a call of the driver's own goroutine and returns the text of its panic, if any.
+func wgSafe(f func()) (msg string) {
+	defer func() {
+		if r := recover(); r != nil {
+			msg = fmt.Sprint(r)
+		}
+	}()
+	f()
+	return ""
+}
+
 type wgWaiter struct {
 	target   string
 	returned int32
+	panicMsg atomic.Value
 	done     chan struct{}
 }
 
@@ -105,23 +117,40 @@ func cmdWGCases(args []string) error {
 		for i, h := range c.Hist {
 			switch h.Op {
 			case "add":
-				mgr.Add(h.Arg, h.D)
+				if msg := wgSafe(func() { mgr.Add(h.Arg, h.D) }); msg != "" {
+					fail("panic:add", inner, fmt.Sprintf("call %d (add %s %d) panicked: %s", i+1, h.Arg, h.D, msg))
+					aborted = true
+				}
 				cnt[h.Arg] += h.D
 			case "done":
-				mgr.Done(h.Arg)
+				// the model gives back only units that are out: a panic here (negative counter) means the
+				// unit was counted somewhere else
+				if msg := wgSafe(func() { mgr.Done(h.Arg) }); msg != "" {
+					fail("panic:done", inner, fmt.Sprintf("call %d (done %s) panicked although a unit of %q is out: %s", i+1, h.Arg, h.Arg, msg))
+					aborted = true
+				}
 				cnt[h.Arg]--
 			case "wait":
 				w := &wgWaiter{target: h.Arg, done: make(chan struct{})}
 				ws = append(ws, w)
 				go func() {
-					if w.target == "scope" {
-						scp.Wait()
+					msg := wgSafe(func() {
+						if w.target == "scope" {
+							scp.Wait()
+						} else {
+							mgr.Wait(w.target)
+						}
+					})
+					if msg != "" {
+						w.panicMsg.Store(msg)
 					} else {
-						mgr.Wait(w.target)
+						atomic.StoreInt32(&w.returned, 1)
 					}
-					atomic.StoreInt32(&w.returned, 1)
 					close(w.done)
 				}()
+			}
+			if aborted {
+				break
 			}
 			blocked := map[int]bool{}
 			for _, b := range h.Blocked {
@@ -140,12 +169,20 @@ func cmdWGCases(args []string) error {
 					aborted = true
 				}
 			}
+			if anyBlocked {
+				runtime.Gosched()
+				time.Sleep(300 * time.Microsecond)
+			}
+			for j, w := range ws {
+				if msg, _ := w.panicMsg.Load().(string); msg != "" {
+					fail("panic:wait", inner, fmt.Sprintf("after call %d (%s %s) the Wait of waiter %d on %q panicked: %s", i+1, h.Op, h.Arg, j+1, w.target, msg))
+					aborted = true
+				}
+			}
 			if aborted {
 				break
 			}
 			if anyBlocked {
-				runtime.Gosched()
-				time.Sleep(300 * time.Microsecond)
 				for j, w := range ws {
 					if blocked[j+1] && atomic.LoadInt32(&w.returned) == 1 {
 						fail("early-return", inner, fmt.Sprintf("after call %d (%s %s) the waiter %d on %q has returned although its count is positive", i+1, h.Op, h.Arg, j+1, w.target))
@@ -164,8 +201,18 @@ func cmdWGCases(args []string) error {
 		sort.Strings(names)
 		for _, n := range names {
 			for ; cnt[n] > 0; cnt[n]-- {
-				mgr.Done(n)
+				if msg := wgSafe(func() { mgr.Done(n) }); msg != "" {
+					fail("panic:done", inner, fmt.Sprintf("giving back the remaining units of %q panicked: %s", n, msg))
+					aborted = true
+					break
+				}
 			}
+			if aborted {
+				break
+			}
+		}
+		if aborted {
+			continue
 		}
 		for j, w := range ws {
 			select {
